@@ -128,9 +128,13 @@ Theorem los_angles_recovered : forall r lat lon za aa,
   dx ^ 2 + dy ^ 2 + dz ^ 2 = 1 /\ cartposlos2geoc x y z dx dy dz = (r, lat, lon, (za, aa)).
 Proof. exact los_roundtrip. Qed.
 
-(* NAMED GAP (DESIGN rung 4, stretch): great_circle_triangle_inequality
-     forall the three points, great_circle_distance_r A C r <= great_circle_distance_r A B r + great_circle_distance_r B C r.
-   Not proved (spherical argument); checked numerically on the implementation by the law sweep. *)
+(* ---- the arc obeys the triangle inequality (spherical triangle; Gram determinant of three unit vectors) --------- *)
+Theorem great_circle_triangle_inequality : forall lat1 lon1 lat2 lon2 lat3 lon3 r, 0 <= r ->
+  great_circle_distance_r lat1 lon1 lat3 lon3 r <=
+    great_circle_distance_r lat1 lon1 lat2 lon2 r + great_circle_distance_r lat2 lon2 lat3 lon3 r /\
+  great_circle_distance_deg lat1 lon1 lat3 lon3 <=
+    great_circle_distance_deg lat1 lon1 lat2 lon2 + great_circle_distance_deg lat2 lon2 lat3 lon3.
+Proof. exact gcd_triangle. Qed.
 
 (* ---- non-vacuity ---------------------------------------------------------------------------------------------- *)
 (* the hypotheses of the inverse theorems are met by a non-trivial position, for WGS84 *)
@@ -170,3 +174,4 @@ Print Assumptions fixed_point_maps_back.
 Print Assumptions geodetic_loop_stops_at_an_iterate.
 Print Assumptions geodetic_spherical_inverse.
 Print Assumptions los_angles_recovered.
+Print Assumptions great_circle_triangle_inequality.
